@@ -68,6 +68,11 @@ def run_cases(fn, cases, warm_cases=(), procs=None, chunk=None, stall=240, group
             pass
     if procs == 1:
         return _run_chunk((0, cases))[1]
+    try:
+        from . import sched
+        sched.reset_pool()          # pool threads started by warm-up calls are joined here
+    except Exception:
+        pass
     ntasks = 0
     for t in os.listdir("/proc/self/task"):
         try:
@@ -78,7 +83,10 @@ def run_cases(fn, cases, warm_cases=(), procs=None, chunk=None, stall=240, group
         if not (comm.startswith("jemalloc") or comm.startswith("polars") or comm.startswith("rayon")):
             ntasks += 1
     if ntasks > 1 and not _ALLOW_THREADS:
-        raise RunnerError(f"parent process has {ntasks} OS threads before fork(): warm-up cases must be thread-free")
+        import threading
+        names = [t.name for t in threading.enumerate()]
+        raise RunnerError(f"parent process has {ntasks} OS threads before fork(): warm-up cases must be thread-free "
+                          f"(python threads: {names})")
     results = [None] * n
     if group is not None:
         idx_jobs = _grouped_jobs(cases, group, procs)
